@@ -11,6 +11,11 @@ import traceback
 sys.path.insert(0, "/verif")
 
 
+class OutsideHarness(Exception):
+    """raised by a contract's `native` harness for inputs it cannot set up (e.g. addresses outside
+    its simulated memory): the case is skipped, it is neither a pass nor a violation"""
+
+
 class ScriptedRandom(object):
     """random.random / random.randint replaced by the draws of the solver's model"""
     def __init__(self, draws):
@@ -112,15 +117,27 @@ def run_replay(data):
     extra = {}
     try:
         if con.native is not None:
-            result = con.native(**inputs)
+            nargs = con.native.__code__.co_varnames[:con.native.__code__.co_argcount]
+            result = con.native(**{k: v for k, v in inputs.items() if k in nargs})
             if isinstance(result, dict) and result.get("__native__"):
                 extra = result
                 raised = result.get("raised")
+                if raised == "error":
+                    raised = "struct.error"
                 result = result.get("result")
         else:
             result = default_native(con, inputs)
+    except OutsideHarness:
+        sr.uninstall()
+        out["skipped"] = True
+        out["requires"] = out.get("requires", True)
+        out["violated"] = []
+        out["reproduced"] = False
+        return out
     except Exception as e:
         raised = type(e).__name__
+        if type(e).__module__ in ("struct", "_struct"):
+            raised = "struct.error"
         out["traceback"] = traceback.format_exc()[-1500:]
     finally:
         sr.uninstall()
@@ -152,11 +169,11 @@ def run_replay(data):
             if not ok:
                 violated.append(name[len("ensures_"):])
     else:
-        declared = set(con.cls.__dict__.get("raises", {}) or {}) | {n[len("raises_"):] for n in cls.__dict__ if n.startswith("raises_")}
+        declared = set(con.cls.__dict__.get("raises", {}) or {}) | {n[len("raises_"):].replace("__", ".") for n in cls.__dict__ if n.startswith("raises_")}
         if raised not in declared:
             violated.append("undeclared/" + raised)
         else:
-            fn = cls.__dict__.get("raises_" + raised)
+            fn = cls.__dict__.get("raises_" + raised.replace(".", "__"))
             if fn is not None:
                 an = fn.__code__.co_varnames[:fn.__code__.co_argcount]
                 amap = dict(inputs)
